@@ -65,7 +65,8 @@ def special_user_names(rng):
     """user-chosen names that collide with other tables of the reader: named math environments (their bodies are
     kept verbatim all the same when the caller asks for it) and neighbours of the built-in names. Only used with the
     option given (without it a math environment is not an ordinary environment)."""
-    return rng.sample(list(G.MATH_ENVS), 3) + rng.sample(['verbatimx', 'listings', 'Verbatim*', 'lstlistin', 'verb'], 2)
+    return rng.sample(list(G.MATH_ENVS), 3) + rng.sample(['verbatimx', 'listings', 'lstlistin', 'verb'], 1) + \
+        [rng.choice(['code*', 'Verbatim*', 'my-listing*', 'A*B', '*'])]
 
 
 SKIP_ONLY = set(G.MATH_ENVS)
